@@ -44,7 +44,7 @@ SL_LOWER = MO + [rx(r'(?<![\w.>])_lock\.load\(', '(int)gv_load(&self->_lock, ', 
                  rx(r'(?<![\w.>])_lock\.compare_exchange_weak\(oldval, 1, (memory_order_\w+)\)', r'sl_cas_weak(&self->_lock, &oldval, 1, \1, \1)', 0),
                  rx(r'(?<![\w.>])is_locked\(\)', 'SimpleLock_is_locked(self)', 0), rx(r'(?<![\w.>])slow_lock\(\)', 'SimpleLock_slow_lock(self)', 0)]
 ASG = '__CPROVER_assigns(self->_lock.v, %s)' % GHOSTS
-LOCK_POST = '__CPROVER_ensures(g_held && g_acq_ok && !g_bad_write && (g_lin_new & ~GV_LOCKBIT) == (g_lin_old & ~GV_LOCKBIT))'
+LOCK_POST = '__CPROVER_ensures(g_held && g_acq_ok && !g_bad_write && (g_lin_new & ~GV_LOCKBIT) == (g_lin_old & ~GV_LOCKBIT) && (g_lin_new & GV_LOCKBIT) != 0)'
 
 
 def SLU(name, src, anchor, proto, contract, says, uses=(), loops=None, within=None):
@@ -111,7 +111,7 @@ PLU('PtrLock_lock', r'inline void lock\(\)', 'void PtrLock_lock(struct PtrLock* 
     '__CPROVER_requires(PL_FRESH(self) && !g_held && !g_bad_write)\n' + LOCK_POST + '\n' + PASG,
     'lock(): caller holds the lock on return, taken by an acquire RMW; pointer bits preserved', uses=['PtrLock_is_locked', 'ptr_slow_lock'])
 PLU('PtrLock_try_lock', r'inline bool try_lock\(\)', 'bool PtrLock_try_lock(struct PtrLock* self)',
-    '__CPROVER_requires(PL_FRESH(self) && !g_held && !g_bad_write)\n__CPROVER_ensures(__CPROVER_return_value == g_held && (g_held ==> (g_acq_ok && (g_lin_new & ~GV_LOCKBIT) == (g_lin_old & ~GV_LOCKBIT))) && !g_bad_write)\n' + PASG,
+    '__CPROVER_requires(PL_FRESH(self) && !g_held && !g_bad_write)\n__CPROVER_ensures(__CPROVER_return_value == g_held && (g_held ==> (g_acq_ok && (g_lin_new & ~GV_LOCKBIT) == (g_lin_old & ~GV_LOCKBIT) && self->_lock.v == g_lin_new && (g_lin_new & GV_LOCKBIT) != 0)) && !g_bad_write)\n' + PASG,
     'try_lock(): true iff this call took the lock (fetch_or with acq_rel that observed the bit clear); the fetch_or of a failed attempt leaves the word unchanged')
 PLU('PtrLock_unlock', r'inline void unlock\(\)', 'void PtrLock_unlock(struct PtrLock* self)',
     '__CPROVER_requires(PL_FRESH(self) && g_held && !g_bad_write && (self->_lock.v & 1) == 1)\n__CPROVER_ensures(!g_held && g_rel_ok && !g_bad_write && g_lin_new == (g_lin_old & ~GV_LOCKBIT))\n' + PASG,
@@ -123,10 +123,10 @@ PLU('PtrLock_unlock_and_set', r'inline void unlock_and_set\(T\* val\)', 'void Pt
     '__CPROVER_requires(PL_FRESH(self) && g_held && !g_bad_write && (self->_lock.v & 1) == 1 && ((uintptr_t)val & 1) == 0)\n__CPROVER_ensures(!g_held && g_rel_ok && !g_bad_write && g_lin_new == (uintptr_t)val)\n' + PASG,
     'unlock_and_set(v): holder publishes exactly v, unlocked, with release order', uses=['PtrLock_is_locked'])
 PLU('PtrLock_getValue', r'inline T\* getValue\(\) const', 'T* PtrLock_getValue(const struct PtrLock* self)',
-    '__CPROVER_requires(PL_FRESH(self))\n__CPROVER_ensures((uintptr_t)__CPROVER_return_value == (g_last_read & ~(uintptr_t)1) && (g_held ==> self->_lock.v == __CPROVER_old(self->_lock.v)))\n%s' % RD,
+    '__CPROVER_requires(PL_FRESH(self))\n__CPROVER_ensures((uintptr_t)__CPROVER_return_value == (g_last_read & ~(uintptr_t)1) && (g_held ==> (self->_lock.v == __CPROVER_old(self->_lock.v) && g_last_read == self->_lock.v)))\n%s' % RD,
     'getValue(): the pointer bits of the observed word; writes nothing')
 PLU('PtrLock_setValue', r'inline void setValue\(T\* val\)', 'void PtrLock_setValue(struct PtrLock* self, T* val)',
-    '__CPROVER_requires(PL_FRESH(self) && g_held && !g_bad_write && (self->_lock.v & 1) == 1 && ((uintptr_t)val & 1) == 0)\n__CPROVER_ensures(g_held && !g_bad_write && g_lin_new == ((uintptr_t)val | 1))\n' + PASG,
+    '__CPROVER_requires(PL_FRESH(self) && g_held && !g_bad_write && (self->_lock.v & 1) == 1 && ((uintptr_t)val & 1) == 0)\n__CPROVER_ensures(g_held && !g_bad_write && g_lin_new == ((uintptr_t)val | 1) && self->_lock.v == g_lin_new && g_acq_ok == __CPROVER_old(g_acq_ok))\n' + PASG,
     'setValue(v) by the holder (its only use: LockManagerBase::tryAcquire after try_lock): stores v with the lock bit still set -- never releases, so relaxed order is enough')
 PLU('PtrLock_CAS', r'inline bool CAS\(T\* oldval, T\* newval\)', 'bool PtrLock_CAS(struct PtrLock* self, T* oldval, T* newval)',
     '__CPROVER_requires(PL_FRESH(self) && !g_held && !g_bad_write && g_lin_count == 0 && ((uintptr_t)oldval & 1) == 0 && ((uintptr_t)newval & 1) == 0)\n__CPROVER_ensures(!g_held && !g_bad_write && (__CPROVER_return_value ==> (g_lin_count == 1 && g_lin_old == (uintptr_t)oldval && g_lin_new == (uintptr_t)newval)) && (!__CPROVER_return_value ==> g_lin_count == 0))\n' + PASG,
